@@ -147,8 +147,8 @@ def run(chk):
     if not quick:
         cfgs += [("hold2+dup2", dict(StreamDef="<<1,1>>", MaxHeld="2", MaxDup="2")),
                  ("hold2 <<0,3>>", dict(StreamDef="<<1,3>>", MaxHeld="2", MaxDup="1")),
-                 ("3rec hold1", dict(StreamDef="<<1,2,1>>", MaxHeld="1", MaxDup="0", MaxSeg="7")),
-                 ("wrap 3rec", dict(StreamDef="<<1,1,1>>", Mod="32", IsnSet="10..31", MaxHeld="1", MaxDup="0", MaxSeg="6"))]
+                 ("3rec hold1", dict(StreamDef="<<1,1,1>>", MaxHeld="1", MaxDup="0", MaxSeg="6")),
+                 ("wrap 3rec", dict(StreamDef="<<1,1,1>>", Mod="32", IsnSet="{15, 22, 27}", MaxHeld="1", MaxDup="0", MaxSeg="5"))]
     for name, upd in cfgs:
         r = tlc.run("Reasm", dict(BASE, **upd), invariants=INV, properties=["ReleaseMonotone"], view="View",
                     timeout=200 if quick else 1500, coverage=(name == "cuts+hold1+dup1"))
